@@ -3,8 +3,11 @@ use std::path::Path;
 
 pub mod c01;
 pub mod c02;
+pub mod c06;
+pub mod responder;
 pub mod c07;
 pub mod c09;
+pub mod c10;
 pub mod c16;
 pub mod smoke;
 
@@ -12,8 +15,10 @@ pub fn run(id: &str, tier: Tier) -> i32 {
     match id {
         "C01" => c01::run(tier),
         "C02" => c02::run(tier),
+        "C06" => c06::run(tier),
         "C07" => c07::run(tier),
         "C09" => c09::run(tier),
+        "C10" => c10::run(tier),
         "C16" => c16::run(tier),
         "SMOKE" => smoke::run(),
         _ => {
@@ -27,8 +32,10 @@ pub fn replay(id: &str, file: &Path) -> i32 {
     match id {
         "C01" => c01::replay(file),
         "C02" => c02::replay(file),
+        "C06" => c06::replay(file),
         "C07" => c07::replay(file),
         "C09" => c09::replay(file),
+        "C10" => c10::replay(file),
         "C16" => c16::replay(file),
         _ => {
             eprintln!("harness error: no check for {id}");
